@@ -140,6 +140,10 @@ def check(chk: Check) -> None:
     chk.require(not problems2 and normal, R2, "FUNCTIONS['rand'] bounds", where, '; '.join(sorted(set(problems2))) or 'randint(int(a), int(b))')
     # the draw is handed back as number(draw): that is the drawn integer only if the number class's constructor is the exact one
     N.number_constructor(chk, R2)
+    # ... and what rand / shuffle return is what the program gets: the call node hands the callee's result on as it is (= C07.R7;
+    # a conversion of results there turns the chosen element into something that is not an element of the list)
+    from .c07 import node_transparency
+    node_transparency(chk, R1, kinds=('call',))
 
     # ---- shuffle
     if 'shuffle' not in tab or tab['shuffle'].funcinfo(F) is None:
